@@ -1,13 +1,19 @@
 (* C12 correspondence: (a) the client's internal view equals the offered sets parsed from its own
    wire hello; (b) the client's observed decision on a scripted server flight equals client_run. *)
-From UV Require Export Base.Common Model.Negotiate Corr.NegotiateObs.
+From UV Require Export Base.Common Model.Negotiate Model.NegotiateSess Corr.NegotiateObs.
 
 Inductive case :=
 | CSync (v : client_view) (w : wire_view)
-| CRun (v : client_view) (w : wire_view) (fl : flight) (o : observed).
+| CRun (v : client_view) (w : wire_view) (fl : flight) (o : observed)
+(* the hello offers a TLS <= 1.2 session (cached or injected with SetSessionState); sh_ems = the ServerHello carries
+   extended_master_secret; resumed = ConnectionState.DidResume *)
+| CRunSess (v : client_view) (w : wire_view) (sess : option session12) (sh_ems : bool) (fl : flight) (o : observed) (resumed : bool).
 
 Definition check (c : case) : bool :=
   match c with
   | CSync v w => synced v w
   | CRun v w fl o => synced v w && matches (client_run v fl) o
+  | CRunSess v w sess ems fl o resumed =>
+      synced v w && matches (client_run_sess env_fixed v sess ems fl) o
+      && implb (o_complete o) (Bool.eqb resumed (did_resume env_fixed v sess fl))
   end.
